@@ -17,9 +17,10 @@ structure AllowCfg where
   inside : List (Nat × Nat × Bool) := []
   deriving Repr, DecidableEq, Inhabited
 
+/-- (a configuration map: of two rules for the same key the later one stands) -/
 def AllowCfg.toList (c : AllowCfg) : AllowList :=
-  { base := fun u => (alookup u c.base).getD true,
-    inside := fun a u => ((c.inside.find? (fun e => e.1 == a && e.2.1 == u)).map (·.2.2)).getD true }
+  { base := fun u => (alookup u c.base.reverse).getD true,
+    inside := fun a u => ((c.inside.reverse.find? (fun e => e.1 == a && e.2.1 == u)).map (·.2.2)).getD true }
 
 structure Ext where
   relays : List (Nat × List Addr) := []
